@@ -12,10 +12,24 @@ variable {toks : Array PTok}
 def Comp1 (toks : Array PTok) (A : NT) (n : Nat) : Prop :=
   ∀ a b t, b - a ≤ n → SegT toks A a b t → NoExt toks b (ext A) → RetN toks A a ⟨t, b, true⟩
 
+def isOp (k : PKind) : Bool := isMul k || isAdd k || isCmp k
+
+/-- what `parse_small_term` returned at the start of the segment `a … b`: a failure, or a result that
+ends at `b` or before an infix operator -/
+def SmallInfo (toks : Array PTok) (b : Nat) (r0 : PResult) : Prop :=
+  r0.term.isParseError = true ∨ r0.next = b ∨ ∃ k, KAt toks r0.next k ∧ isOp k = true
+
+theorem SmallInfo.step {b m : Nat} {r0 : PResult} {op : PKind} (h : SmallInfo toks m r0)
+    (k1 : KAt toks m op) (hop : isOp op = true) : SmallInfo toks b r0 := by
+  rcases h with h | h | h
+  · exact Or.inl h
+  · exact Or.inr (Or.inr ⟨op, h ▸ k1, hop⟩)
+  · exact Or.inr (Or.inr h)
+
 /-- … and `parse_small_term` returns something at the same start -/
 def Comp2 (toks : Array PTok) (A : NT) (n : Nat) : Prop :=
   ∀ a b t, b - a ≤ n → SegT toks A a b t → NoExt toks b (ext A) →
-    RetN toks A a ⟨t, b, true⟩ ∧ ∃ r0, RetN toks .smallTerm a r0
+    RetN toks A a ⟨t, b, true⟩ ∧ ∃ r0, RetN toks .smallTerm a r0 ∧ SmallInfo toks b r0
 
 theorem comp_atom {n : Nat} (hT : Comp1 toks .term n) : Comp1 toks .atom (n + 1) := by
   intro a b t hl h _
@@ -47,7 +61,7 @@ theorem comp_medium {n : Nat} (hS : Comp1 toks .smallTerm (n + 1)) (hL : Comp2 t
   have hf' : NoExt toks b extLarge := hf
   rcases inv_medium h with h1 | ⟨m, op, x, y, hop, h1, k1, h2, rfl⟩
   · have r := hS _ _ _ hl h1 (hf'.mono (fun k hk => by simp only [extLarge, Bool.or_eq_true]; exact Or.inl hk))
-    exact ⟨up_medium r (segT_facts h1).2 (hf'.not rfl) (hf'.not rfl), _, r⟩
+    exact ⟨up_medium r (segT_facts h1).2 (hf'.not rfl) (hf'.not rfl), _, r, Or.inr (Or.inl rfl)⟩
   · have l1 := SegT.lt h1
     have l2 := SegT.lt h2
     have r1 := hS _ _ _ (by omega) h1
@@ -56,7 +70,7 @@ theorem comp_medium {n : Nat} (hS : Comp1 toks .smallTerm (n + 1)) (hL : Comp2 t
     have e : ∀ o, (⟨.mk (span x.range y.range) false (.bin o x y) [], b, true⟩ : PResult)
         = ⟨.mk (rng toks a b) false (.bin o x y) [], b, true⟩ := by
       intro o; rw [h1.range, h2.range]; rfl
-    refine ⟨?_, _, r1⟩
+    refine ⟨?_, _, r1, Or.inr (Or.inr ⟨op, k1, by simp [isOp, hop]⟩)⟩
     cases op <;> simp [isMul] at hop
     · have := binary_ok bn_prod r1 (segT_facts h1).2 k1 r2
       rw [← e]
@@ -83,8 +97,8 @@ theorem comp_large {n : Nat} (hM : Comp2 toks .mediumTerm (n + 1)) (hL : Comp2 t
       rw [h1.range]; rfl
     rw [← e]
     refine ⟨choice_ok [] [.mediumTerm] rfl (fun _ hX => by cases hX) this rfl, ?_⟩
-    obtain ⟨r0, h0, _⟩ := small_fails (toks := toks) (b := a) (Follow.of_kat k1 rfl)
-    exact ⟨r0, h0⟩
+    obtain ⟨r0, h0, hpe⟩ := small_fails (toks := toks) (b := a) (Follow.of_kat k1 rfl)
+    exact ⟨r0, h0, Or.inl hpe⟩
 
 theorem comp_huge {n : Nat} (hL : Comp2 toks .largeTerm (n + 1)) (hH : Comp2 toks .hugeTerm n) :
     Comp2 toks .hugeTerm (n + 1) := by
@@ -101,7 +115,8 @@ theorem comp_huge {n : Nat} (hL : Comp2 toks .largeTerm (n + 1)) (hH : Comp2 tok
     have e : ∀ o, (⟨.mk (span x.range y.range) false (.bin o x y) [], b, true⟩ : PResult)
         = ⟨.mk (rng toks a b) false (.bin o x y) [], b, true⟩ := by
       intro o; rw [h1.range, h2.range]; rfl
-    refine ⟨?_, rs⟩
+    obtain ⟨r0, hr0, hi0⟩ := rs
+    refine ⟨?_, r0, hr0, hi0.step k1 (by simp [isOp, hop])⟩
     cases op <;> simp [isAdd] at hop
     · have := binary_ok bn_diff r1 (segT_facts h1).2 k1 r2
       rw [← e]
@@ -131,7 +146,8 @@ theorem comp_giant {n : Nat} (hH : Comp2 toks .hugeTerm (n + 1)) :
         = ⟨.mk (rng toks a b) false (.bin o x y) [], b, true⟩ := by
       intro o; rw [h1.range, h2.range]; rfl
     have nx := (segT_facts h1).2
-    refine ⟨?_, rs⟩
+    obtain ⟨r0, hr0, hi0⟩ := rs
+    refine ⟨?_, r0, hr0, hi0.step k1 (by simp [isOp, hop])⟩
     cases op <;> simp [isCmp] at hop
     · have := binary_ok bn_eq r1 nx k1 r2
       rw [← e]
